@@ -119,7 +119,7 @@ def tlc(module, cfg=None, workers=1, timeout=1800, env=None, xss='512m', xmx='4g
     if deque:
         jopts.append('-Dtlc2.tool.queue.IStateQueue=StateDeque')
     cmd = ['java'] + jopts + ['-cp', JAR, 'tlc2.TLC', '-workers', str(workers), '-metadir', meta,
-                              '-cleanup', '-noGenerateSpecTE', '-config', cfg or (module + '.cfg')]
+                              '-cleanup', '-noGenerateSpecTE', '-checkpoint', '0', '-config', cfg or (module + '.cfg')]
     if simulate:
         cmd += ['-simulate', simulate]
     if depth:
